@@ -15,7 +15,8 @@ QUICK_N = 1500
 THOROUGH_N = 60000
 QUICK_BUDGET_S = 80
 THOROUGH_BUDGET_S = 900
-RULE = ("tempo lists of 1-12 changes (bpm from the exactly-representable set or arbitrary doubles, metronomes 1-8, "
+RULE = ("tempo lists of 1-12 changes (bpm over the whole positive range: 0.01-1.2 incl. 0.5/0.25/0.75, ordinary 20-600, "
+        "1e4-1e6, from exactly-representable sets or arbitrary doubles, metronomes 1-8, "
         "pure time-signature changes that repeat the bpm, initial offset of both signs), handed over through every entry "
         "point (from_bpm_changes_snap, from_bpm_changes_offset, TimingMap(...), BpmList.to_timing_map) in original / "
         "reversed / shuffled list order; 0-60 queries in random order with duplicates; claims offsets/roundtrip/snap/"
@@ -31,6 +32,27 @@ ASSUMPTIONS = [
 ]
 
 E_BPMS = [50, 60, 75, 100, 120, 125, 128, 150, 160, 200, 240, 250, 300, 375, 37.5, 62.5, 93.75, 187.5, 480, 600]
+# the whole positive range ("any positive bpm"): very slow and very fast tempos whose beat length is still a dyadic
+# number of milliseconds, next to arbitrary ones
+E_SLOW = [0.5, 0.25, 0.75, 0.125, 0.375, 0.9375, 1, 1.5, 3, 7.5]
+E_FAST = [12000, 15000, 30000, 60000, 120000, 240000, 960000, 7500, 46875]
+
+
+def gen_bpm(rng, wide):
+    """one tempo; `wide` cases draw from the whole positive range, the others from ordinary song tempos"""
+    r = rng.random()
+    if wide and r < 0.30:
+        if rng.random() < 0.6:
+            return Fr(rng.choice(E_SLOW))
+        return Fr(round(rng.uniform(0.01, 1.2), rng.choice([2, 3, 6])) or 0.01)
+    if wide and r < 0.55:
+        if rng.random() < 0.6:
+            return Fr(rng.choice(E_FAST))
+        return Fr(round(10 ** rng.uniform(4, 6), rng.choice([0, 1, 3])))
+    if rng.random() < 0.6:
+        return Fr(rng.choice(E_BPMS))
+    bpm = Fr(round(rng.uniform(20, 600), rng.choice([0, 1, 3, 6])))
+    return bpm if bpm > 0 else Fr(120)
 DENS = [1, 2, 3, 4, 6, 8, 12, 16, 24, 32, 48, 96]
 
 
@@ -65,13 +87,9 @@ def gen_changes(rng, compatible=True, max_n=12, const_met=False):
     met = rng.randint(1, 8)
     out = []
     pos_m, pos_b = 0, Fr(0)
+    wide = rng.random() < 0.4
     for i in range(n):
-        if rng.random() < 0.6:
-            bpm = Fr(rng.choice(E_BPMS))
-        else:
-            bpm = Fr(round(rng.uniform(20, 600), rng.choice([0, 1, 3, 6])))
-            if bpm <= 0:
-                bpm = Fr(120)
+        bpm = gen_bpm(rng, wide)
         if i > 0 and rng.random() < 0.3:
             bpm = F(out[-1]["bpm"])      # a point that repeats the bpm (pure time-signature change / no-op point)
         if i > 0:
@@ -269,6 +287,20 @@ def corpus():
     c.append(dict(claim="beats", mode="exact", entry="offset", t0=R(-250),
                   cs=[dict(bpm=R(120), met=4, measure=0, beat=R(0), k=1), dict(bpm=R(60), met=4, measure=1, beat=R(2), k=0)],
                   ts=[R(4000), R(-250), R(2750), R(1000)]))
+    # "any positive bpm": a near-pause at 0.5 bpm between ordinary tempos, and a 960000 bpm burst (seeded change C10-C:
+    # a max(bpm, 1) guard in beat_length)
+    slow_cs = [dict(bpm=R(120), met=4, measure=0, beat=R(0), k=0), dict(bpm=R(Fr(1, 2)), met=4, measure=1, beat=R(0), k=1),
+               dict(bpm=R(960000), met=3, measure=2, beat=R(0), k=2), dict(bpm=R(Fr(3, 4)), met=3, measure=40, beat=R(Fr(3, 2)), k=3)]
+    for entry, mode in (("snap", "exact"), ("offset", "float"), ("bpmlist", "float")):
+        c.append(dict(claim="offsets", mode=mode, entry=entry, t0=R(-500), cs=[dict(x) for x in slow_cs],
+                      qs=[dict(measure=1, beat=R(2), met="active"), dict(measure=41, beat=R(0), met=None),
+                          dict(measure=2, beat=R(0), met=None), dict(measure=20, beat=R(Fr(1, 3)), met="active")]))
+        c.append(dict(claim="roundtrip", mode=mode, entry=entry, t0=R(-500), cs=[dict(x) for x in slow_cs],
+                      ts=[R(1500), R(1500 + 120000), R(1500 + 480000), R(1500 + 480000 + Fr(1, 16)), R(700000)]))
+    c.append(dict(claim="beats", mode="exact", entry="snap", t0=R(0),
+                  cs=[dict(bpm=R(60), met=4, measure=0, beat=R(0), k=0), dict(bpm=R(Fr(1, 4)), met=4, measure=1, beat=R(0), k=1),
+                      dict(bpm=R(240000), met=4, measure=2, beat=R(0), k=2)],
+                  ts=[R(0), R(4000), R(4000 + 240000), R(4000 + 960000), R(4000 + 960000 + Fr(1, 4))]))
     # exact midpoint of the doubles 1/2 and 49/97-neighbour: ties go right
     G, FG, _, _ = py_grid()
     i = G.index(Fr(1, 2))
@@ -354,6 +386,18 @@ def same(a, b, mode):
 def dom_of(drv, cs):
     d = drv.call("timing.dom", cs=j_cs(cs))["ok"]
     return d
+
+
+def tie_band(case, t, beat_len):
+    """how close (in beats) to a snapping midpoint a time may lie for either neighbour to be accepted: the code
+    computes the beat coordinate as (t - T_i)/beat_length in doubles, so its resolution is that of t and T_i
+    (|T_i| <= max(|t|, |t0|)) divided by the beat length - 2^-40 relative, as everywhere in the float bridge"""
+    mag = max(abs(F(t)), abs(F(case["t0"])))
+    bl = F(beat_len)
+    if bl <= 0 or case["mode"] == "exact":
+        # exact mode: the coordinate is exact; only the Snapper's own doubles (n/d, float(rem)) are involved
+        return Fr(1, 2 ** 40)
+    return Fr(1, 2 ** 40) * (1 + 2 * mag / bl)
 
 
 def near_change_fn(case, mode):
@@ -562,7 +606,8 @@ def run_roundtrip(case, drv):
                     flipped.add(i)
                     # snapping is a discontinuity: accept a flip only next to a midpoint; so is the choice of the
                     # segment: accept either one only for a time within the band of a change's time
-                    if spec[i]["tie_margin"] is not None and abs(F(spec[i]["tie_margin"])) < Fr(1, 2 ** 40):
+                    if spec[i]["tie_margin"] is not None and \
+                            abs(F(spec[i]["tie_margin"])) < tie_band(case, ts[i], spec[i]["beat_len"]):
                         boundary = True
                     elif near_change(F(ts[i])):
                         boundary = True
@@ -586,7 +631,7 @@ def run_roundtrip(case, drv):
                     ok = False
             else:
                 lim = F(s["beat_len"]) / 192
-                if abs(Fr(a) - t) > lim + (0 if mode == "exact" else Fr(1, 2 ** 30)):
+                if abs(Fr(a) - t) > lim + (0 if mode == "exact" else Fr(1, 2 ** 30) + Fr(1, 2 ** 40) * abs(t)):
                     ok = False
         if not st_agree:
             agree = False
@@ -681,7 +726,8 @@ def run_beats(case, drv):
             # so a discontinuity (snapping tie, segment choice at a change's time) is accepted per time
             for i, (a, b) in enumerate(zip(vals, m["ok"])):
                 if a != F(b):
-                    tie = spec[i]["tie_margin"] is not None and abs(F(spec[i]["tie_margin"])) < Fr(1, 2 ** 40)
+                    tie = spec[i]["tie_margin"] is not None and \
+                        abs(F(spec[i]["tie_margin"])) < tie_band(case, ts[i], spec[i]["beat_len"])
                     if tie or near_change(F(ts[i])):
                         boundary = True
                     else:
